@@ -7,6 +7,7 @@
 From BU Require Import Lib.Bytes Lib.Sha256 Gcs.SipHash Gcs.Sort Gcs.Gcs Gcs.GcsProofs Gcs.GcsBitsProofs
   Gcs.GcsMatchProofs Gcs.GcsTheorems Gcs.GcsSortProofs Gcs.Bip158Spec Gcs.GcsSerProofs
   Gcs.GcsBuilder Gcs.GcsBuilderProofs.
+From BU Require Import Gen.Kernels Tie.KernelsTie.
 From Coq Require Import Sorting.Sorted Sorting.Permutation.
 
 (* the portable 64x64 -> high 64 multiply is exact: floor(v*n / 2^64) for all 64-bit v, n *)
@@ -14,6 +15,20 @@ Theorem C14_fast_reduction_spec : forall v n, v < two64 -> n < two64 ->
   fast_reduction v (N.shiftr n 32) (lo32 n) = v * n / two64.
 Proof. exact fast_reduction_spec. Qed.
 Print Assumptions C14_fast_reduction_spec.
+
+(* the model's fast_reduction IS the source: Gen/Kernels.v is regenerated from the Go AST of
+   fastReduction on every run (harness/cmd/gotrans) and is the same function as the hand-written model
+   for ALL arguments; a structural change of the Go function breaks this obligation at make time *)
+Theorem C14_fast_reduction_is_translated_source : forall v nHi nLo,
+  Kernels.fastReduction v nHi nLo = Gcs.fast_reduction v nHi nLo.
+Proof. exact fastReduction_tie. Qed.
+Print Assumptions C14_fast_reduction_is_translated_source.
+
+Theorem C14_translated_fast_reduction_spec : forall v nHi nLo,
+  v < 2 ^ 64 -> nHi < 2 ^ 32 -> nLo < 2 ^ 32 ->
+  Kernels.fastReduction v nHi nLo = (v * (nHi * 2 ^ 32 + nLo)) / 2 ^ 64.
+Proof. exact fastReduction_spec. Qed.
+Print Assumptions C14_translated_fast_reduction_spec.
 
 (* filter bytes = pack (Golomb-Rice codes of the deltas of the sorted values floor(H(key,item)*N*M/2^64)),
    N() = number of items, P() = P, whenever N*M fits 64 bits *)
